@@ -577,6 +577,7 @@ func c35CheckStream(w *vx.W, x c35StreamCase) {
 	exps := c35RefStream(b, head)
 	var firstMiss string
 	var missSig string
+	missStage := 0
 	for _, e := range exps {
 		sig, miss := c35Match(e, o)
 		if miss == "" {
@@ -584,11 +585,26 @@ func c35CheckStream(w *vx.W, x c35StreamCase) {
 			w.Outcome(fmt.Sprintf("%s msg=%v end=%s/%s", x.Side, o.msg, e.end, c35EndClass(o)))
 			return
 		}
-		if firstMiss == "" {
+		// Several behaviours are acceptable only when HTTP/2-reserved frame
+		// types are involved; report the one the observation follows furthest
+		// (message head, then body bytes, then the end), the later one on ties.
+		if st := c35MissStage(sig); st >= missStage {
+			missStage = st
 			firstMiss, missSig = fmt.Sprintf("%s (expected because: %s)", miss, e.why), sig
 		}
 	}
 	w.Failf(pre+missSig, "%s: %s; observed: %s", desc, firstMiss, obs)
+}
+
+// c35MissStage orders the clauses of c35Match.
+func c35MissStage(sig string) int {
+	switch {
+	case sig == "skip/message-head-rejected" || sig == "body/valid-message-head-rejected" || sig == "truncated/message-accepted":
+		return 1
+	case sig == "body/data-frame-lost" || sig == "body/bytes-beyond-data-frames":
+		return 2
+	}
+	return 3
 }
 
 func c35EndClass(o *c35Obs) string {
